@@ -446,7 +446,7 @@ class Component(CaselessDict):
                     comps.append(component)
                 else:
                     stack[-1].add_component(component)
-                if vals.upper() == 'VTIMEZONE' and 'TZID' in component:
+                if component.name == 'VTIMEZONE' and 'TZID' in component:
                     tzp.cache_timezone_component(component)
             # we are adding properties to the current top of the stack
             else:
